@@ -304,12 +304,10 @@ func runC06(c *report.Ctx) {
 func ruleRestartResumesTasks(c *report.Ctx) {
 	p := c.P
 	worker := fn(c, pkgWallet, "", "worker")
-	pushImport := fn(c, pkgWallet, "WalletTaskChan", "PushImport")
-	pushRemove := fn(c, pkgWallet, "WalletTaskChan", "PushRemove")
 	getAll := fn(c, pkgTxmgr, "SyncStore", "GetAllWalletStatus")
 	isRemoved := fn(c, pkgTxmgr, "WalletStatus", "IsRemoved")
 	ready := fn(c, pkgTxmgr, "WalletStatus", "Ready")
-	if worker != nil && pushImport != nil && pushRemove != nil && getAll != nil && isRemoved != nil && ready != nil {
+	if worker != nil && getAll != nil && isRemoved != nil && ready != nil {
 		var scan *ssa.Function
 		for _, af := range closuresOf(p, worker) {
 			if len(calls(af, getAll)) > 0 {
@@ -320,16 +318,16 @@ func ruleRestartResumesTasks(c *report.Ctx) {
 			c.Fail(sk(worker)+":startup-scan", "the worker no longer scans all wallet statuses at start-up", p.Pos(worker.Pos()))
 		} else {
 			okR, okI := false, false
-			for _, s := range calls(scan, pushRemove) {
-				gs := p.GuardsOf(s)
+			for _, tp := range pushesOf(c, scan, "remove") {
+				s, gs := tp.Site, tp.Guards(p)
 				// a flagged wallet is a ready one (only ready wallets can be flagged): the push must not also demand !Ready()
 				if loopHeaderOf(s.Block()) != nil && an.AnyAtom(gs, func(a an.Atom) bool { return an.BoolCall(a, isRemoved, "", true) }) &&
 					!an.AnyAtom(gs, func(a an.Atom) bool { return an.BoolCall(a, ready, "", false) }) {
 					okR = true
 				}
 			}
-			for _, s := range calls(scan, pushImport) {
-				gs := p.GuardsOf(s)
+			for _, tp := range pushesOf(c, scan, "import") {
+				s, gs := tp.Site, tp.Guards(p)
 				if loopHeaderOf(s.Block()) != nil && an.AnyAtom(gs, func(a an.Atom) bool { return an.BoolCall(a, ready, "", false) }) {
 					okI = true
 				}
